@@ -9,8 +9,10 @@
     antiderivative expression (derivative under the integral for parameters, +-f at the limits follow automatically).
 """
 import itertools
+import warnings
 
 import numpy as np
+import scipy.integrate
 import autograd.numpy as anp
 
 import pyerrors as pe
@@ -114,6 +116,27 @@ QUADS = [
 ]
 
 
+def _plain(call):
+    """the numbers of a returned tuple (dictionaries such as full_output's infodict by their size), as exact text"""
+    try:
+        with np.errstate(all='ignore'), warnings.catch_warnings():
+            warnings.simplefilter('ignore')
+            out = call()
+    except Exception as e:  # noqa: BLE001
+        return {'k': 'exc:' + type(e).__name__, 'v': []}
+    if not isinstance(out, tuple):
+        return {'k': type(out).__name__, 'v': []}
+    v = []
+    for x in out:
+        if isinstance(x, (int, float, np.integer, np.floating)) and np.isfinite(x):
+            v.append(rat(float(x)))
+        elif isinstance(x, dict):
+            v.append('dict:%d' % len(x))
+        else:
+            v.append(type(x).__name__)
+    return {'k': 'tuple%d' % len(out), 'v': v}
+
+
 def quad_cases(rng, ctx, full):
     cases = []
     for name, f, npar, Fb, pv in QUADS:
@@ -135,6 +158,16 @@ def quad_cases(rng, ctx, full):
             args, leaves, ops = [], [], []
             oi = 0
             for k in range(slots):
+                earlier = [j for j in range(k) if sub[j]]
+                if sub[k] and earlier and rng.random() < 0.25:
+                    # the very same observable object enters twice (as two parameters, or as a parameter and a limit)
+                    j = int(rng.choice(earlier))
+                    if not (k == slots - 1 and j == slots - 2):          # not both limits: the interval would be empty
+                        vals[k] = vals[j]
+                        args.append(args[j])
+                        leaves.append(leaves[j])
+                        oi += 1
+                        continue
                 if sub[k]:
                     o = _rescale(obs[oi], vals[k])
                     if rng.random() < 0.15:
@@ -160,6 +193,11 @@ def quad_cases(rng, ctx, full):
             cid = 'quad-%s-%s-%s' % (name, ''.join('o' if s else 'n' for s in sub), cls)
             if nobs == 0:
                 cases.append({'id': cid, 'ev': 'plainnum', 'mode': 'quad', 'expr': gen.strip(expr), 'ops': [], 'res': res})
+                # ... and with scipy's own keywords: exactly scipy's result for the same call, entry by entry
+                for kw in ({'weight': 'cos', 'wvar': 1.7}, {'full_output': True}, {'epsabs': 1e-3, 'epsrel': 1e-3, 'limit': 3}, {'points': [0.5 * (a + b)]}):
+                    cases.append({'id': cid + '-kw-' + '-'.join(sorted(kw)), 'ev': 'sameplain',
+                                  'got': _plain(lambda: pe.integrate.quad(f, p_args, a_arg, b_arg, **kw)),
+                                  'want': _plain(lambda: scipy.integrate.quad(lambda x: f(p_args, x), a_arg, b_arg, **kw))})
             else:
                 cases.append({'id': cid, 'ev': 'expr', 'mode': 'quad', 'expr': gen.strip(expr), 'ops': [project_obs(o) for o in ops], 'res': res})
             ctx.nontrivial.add(('quad', name, sub, cls))
